@@ -93,7 +93,8 @@ MIXED_WORD = WIDE_IN + "-cafe\u0301-abcdefghij"
 
 # leaf strings, most width-relevant first (a tier takes a prefix)
 TEXTS = ["ab cd", WIDE_IN + WIDE_LAST, "a\nbb c", "a" + WIDE_SINGLE + " b", MIXED_WORD, "", "a", "e\u0301x",
-         "\u3042\u3042\u3042\u3042", " lead", "tab\tx", "\u3042\u3044", "a\u3042 b", "abcdefgh"]
+         "\u3042\u3042\u3042\u3042", " lead", "tab\tx", "\u3042\u3044", "a\u3042 b", "abcdefgh",
+         "ab\u00a0cd\u3000ef\u2003g"]          # words separated by non-ASCII whitespace (NBSP, ideographic, em space)
 HEADERS = ["h", "hd x", "\u3042h", "h4"]
 FOOTERS = ["f", "\u3042", "f g", "f4"]
 
@@ -558,7 +559,7 @@ def families(tier, seed=0, include_fixed=False):
               D2: depth 2, <=2 kids, 2 texts (+ rule/pbar/bar directly under the root), default options
               D2x1: depth 2 with a single-kid root over 2 texts, exactly 1 deviation, 1 alternative
               CH3 / CH4: all 9^3 (3 leaves) / 9^4 (2 leaves) single-kid chains, default options
-              ROT: rotating slice (seed mod 8): D1 with 0..2 deviations over one further leaf string
+              ROT: rotating slice (seed mod 9): D1 with 0..2 deviations over one further leaf string
     thorough  D1: depth<=1, <=3 kids, all 14 texts + rule/pbar/bar, default options
               D1x1 / D1x2 / D1x3: depth<=1, <=2 kids, exactly 1 / 2 / 3 deviations over 14 / 5 / 2 texts
                     (+ rule/pbar/bar for 1 and 2) with all / 2 / 1 alternatives per option
@@ -567,7 +568,9 @@ def families(tier, seed=0, include_fixed=False):
               D2x2: depth 2 single-kid containers over 2 texts, exactly 2 deviations
               D3: depth 3, <=2 kids, single-kid root, 1 text, default options
               CH3: 9^3 chains x 14 texts; CH4: 9^4 chains x 5 texts; CH4x1: 9^4 chains x 1 text, exactly 1 deviation
-    both      WT: {panel, align, constrain} over {2 texts, rule, panel, columns, 1x1 table} (with include_fixed also
+    both      CON: Tree of 3 nodes (flat, chain) and 4 nodes (flat, chain, mixed) x labels over {"a\\nbb c", "ab cd",
+                  Panel("ab cd")}; meant to be rendered on all of CONSOLE_KINDS
+              WT: {panel, align, constrain} over {2 texts, rule, panel, columns, 1x1 table} (with include_fixed also
                   table / columns over a text), 0..2 (thorough 0..3) deviations among the options width / title /
                   caption / expand with ALL their alternatives (widths include 50 = above most available widths)
               SH: group [host, t, other] where the text leaf t and an argument or kid of the host carry the same
@@ -590,8 +593,8 @@ def families(tier, seed=0, include_fixed=False):
         F.append(_fam("ROT%d" % r, base="skel", depth=1, kids=2, text_list=[TEXTS[6 + r]], others=False,
                       dev=[0, 1, 2], alts=1, fixed=fx))
     else:
-        F.append(_fam("D1", base="skel", depth=1, kids=3, texts=14, others=True, dev=[0], alts=None, fixed=fx))
-        F.append(_fam("D1x1", base="skel", depth=1, kids=2, texts=14, others=True, dev=[1], alts=None, fixed=fx))
+        F.append(_fam("D1", base="skel", depth=1, kids=3, texts=15, others=True, dev=[0], alts=None, fixed=fx))
+        F.append(_fam("D1x1", base="skel", depth=1, kids=2, texts=15, others=True, dev=[1], alts=None, fixed=fx))
         F.append(_fam("D1x2", base="skel", depth=1, kids=2, texts=5, others=True, dev=[2], alts=2, fixed=fx))
         F.append(_fam("D1x3", base="skel", depth=1, kids=2, texts=2, others=False, dev=[3], alts=1, fixed=fx))
         F.append(_fam("D2", base="skel", depth=2, kids=2, texts=4, others=True, inner_texts=3, inner_others=False,
@@ -602,12 +605,15 @@ def families(tier, seed=0, include_fixed=False):
                       fixed=fx))
         F.append(_fam("D3", base="skel", depth=3, kids=2, texts=1, others=False, exact=True, dev=[0], alts=1,
                       fixed=fx, root_single=True))
-        F.append(_fam("CH3", base="chain", length=3, texts=14, dev=[0], alts=1, fixed=fx))
+        F.append(_fam("CH3", base="chain", length=3, texts=15, dev=[0], alts=1, fixed=fx))
         F.append(_fam("CH4", base="chain", length=4, texts=5, dev=[0], alts=1, fixed=fx))
         F.append(_fam("CH4x1", base="chain", length=4, texts=1, dev=[1], alts=1, fixed=fx))
     # both tiers: fixed `width=` options (incl. values above the available width) x titles x expand, all alternatives
     F.append(_fam("WT", base="wt", dev=[0, 1, 2] if tier == "quick" else [0, 1, 2, 3], alts=None, fixed=fx,
                   only=["width", "title", "caption", "expand"]))
+    # both tiers: console dimension -- trees of 3 and 4 nodes, every shape, labels incl. multi-line text and a panel;
+    # the checks render this family on the utf8, ascii-only and legacy_windows consoles (guides / boxes differ)
+    F.append(_fam("CON", base="con", dev=[0], alts=1, fixed=fx))
     # both tiers: ONE Text object used as an argument / kid of a host and again as its sibling (shared-argument histories)
     F.append(_fam("SH", base="shared", dev=[0], alts=1, fixed=fx))
     if fx:
@@ -700,7 +706,17 @@ def _wt_bases(fixed):
         yield ["columns", {}, [leaves[0], leaves[1]]]
 
 
+def _con_trees():
+    labels = [T("a\nbb c"), T("ab cd"), ["panel", {}, [T("ab cd")]]]
+    for n in (3, 4):
+        for shape in TREE_SHAPES[n]:
+            for ks in itertools.product(labels, repeat=n):
+                yield ["tree", {"shape": shape}, list(ks)]
+
+
 def family_bases(fam):
+    if fam["base"] == "con":
+        return _con_trees()
     if fam["base"] == "wt":
         return _wt_bases(fam["fixed"])
     if fam["base"] == "shared":
